@@ -788,7 +788,15 @@ func init() {
 		"bytes.Equal": func(m *Machine, a []Val) Val { return m.bytesEqual(a[0].(Slice), a[1].(Slice)) },
 
 		// ---- regexp (over-approximation: any verdict) ----
-		"regexp.MustCompile": func(m *Machine, a []Val) Val { return Ptr{C: m.newCell(Opaque{Name: "regexp"})} },
+		"regexp.MustCompile": func(m *Machine, a []Val) Val {
+			if p, ok := a[0].(Str); ok && p.IsC() {
+				if _, err := regexp.Compile(p.C); err != nil {
+					m.rtPanic("regexp.MustCompile: " + err.Error())
+				}
+				return Ptr{C: m.newCell(Opaque{Name: "regexp:" + p.C})}
+			}
+			return Ptr{C: m.newCell(Opaque{Name: "regexp"})}
+		},
 		"regexp.MatchString": func(m *Machine, a []Val) Val {
 			p, s := a[0].(Str), a[1].(Str)
 			if p.IsC() && s.IsC() {
@@ -800,7 +808,26 @@ func init() {
 			}
 			return Tuple{m.ex.NondetBool("regexp_match"), nilErr()}
 		},
-		"(*regexp.Regexp).MatchString": func(m *Machine, a []Val) Val { return m.ex.NondetBool("regexp_match") },
+		"(*regexp.Regexp).MatchString": func(m *Machine, a []Val) Val {
+			// exact when the pattern is known and ASCII-only (regex.go); otherwise any verdict
+			if p, ok := a[0].(Ptr); ok && p.C != nil {
+				if o, ok := p.C.V.(Opaque); ok && strings.HasPrefix(o.Name, "regexp:") {
+					pat := o.Name[len("regexp:"):]
+					s := a[1].(Str)
+					if s.IsC() {
+						return CB(regexp.MustCompile(pat).MatchString(s.C))
+					}
+					if s.IsB {
+						if r, ok := m.symRegexMatch(pat, s.B); ok {
+							m.stubsRun["regexp: exact NFA encoding of "+pat]++
+							return r
+						}
+					}
+				}
+			}
+			m.stubsRun["regexp: over-approximated (any verdict)"]++
+			return m.ex.NondetBool("regexp_match")
+		},
 
 		// ---- misc ----
 		"(encoding/asn1.ObjectIdentifier).String": func(m *Machine, a []Val) Val {
